@@ -921,7 +921,11 @@ func (r *Runtime) regexpproto_stdSplitterGeneric(splitter *Object, s String, lim
 	}
 	size := s.Length()
 	p := 0
-	execFn := toMethod(splitter.ToObject(r).self.getStr("exec", nil)) // must be non-nil
+	execFn := toMethod(splitter.ToObject(r).self.getStr("exec", nil))
+	if execFn == nil {
+		// the object returned by the species constructor is not a RegExp and has no exec method
+		panic(r.NewTypeError("object is not a RegExp and has no callable 'exec' method"))
+	}
 
 	if size == 0 {
 		if r.regExpExec(execFn, splitter, s) == _null {
